@@ -29,7 +29,8 @@ use tamper::*;
 use world::*;
 
 const ID: &str = "C14";
-const MAX_VIOLATIONS_PER_FAMILY: usize = 40;
+const MAX_VIOLATIONS_PER_FAMILY: usize = 4000;
+const MAX_VIOLATIONS_REPORTED: usize = 100;
 
 #[derive(Default)]
 struct ItemOut {
@@ -579,7 +580,7 @@ struct Agg {
 
 fn absorb(agg: &mut Agg, family: &str, results: Vec<Result<ItemOut, String>>, ids: &[String]) {
 	let mut fam_viol = 0usize;
-	let mut fam_samples = 0usize;
+	let mut fam_candidates: Vec<Value> = Vec::new();
 	for (i, r) in results.into_iter().enumerate() {
 		match r {
 			Ok(o) => {
@@ -594,10 +595,7 @@ fn absorb(agg: &mut Agg, family: &str, results: Vec<Result<ItemOut, String>>, id
 					agg.digests.insert(d);
 				}
 				if let Some(s) = o.sample {
-					if fam_samples < 3 {
-						agg.samples.push(s);
-						fam_samples += 1;
-					}
+					fam_candidates.push(s);
 				}
 				for v in o.violations {
 					if fam_viol < MAX_VIOLATIONS_PER_FAMILY {
@@ -621,6 +619,14 @@ fn absorb(agg: &mut Agg, family: &str, results: Vec<Result<ItemOut, String>>, id
 					});
 				}
 			},
+		}
+	}
+	// three evenly spaced samples per family
+	let k = fam_candidates.len();
+	if k > 0 {
+		let picks: BTreeSet<usize> = [0, k / 2, k - 1].into_iter().collect();
+		for i in picks {
+			agg.samples.push(fam_candidates[i].clone());
 		}
 	}
 }
@@ -914,6 +920,14 @@ fn main() {
 		}
 	}
 
+	// report the smallest failing inputs first (conclude lists at most 20)
+	fn n_of(v: &Violation) -> usize {
+		v.identity.split("n=").nth(1).and_then(|r| r.split(',').next()).and_then(|x| x.parse().ok()).unwrap_or(0)
+	}
+	agg.violations.sort_by(|a, b| (n_of(a), &a.identity).cmp(&(n_of(b), &b.identity)));
+	let violations_found = agg.violations.len();
+	agg.violations.truncate(MAX_VIOLATIONS_REPORTED);
+
 	// ---- evidence ----
 	let evaluations = st.get("deliver_cases") + st.get("tamper_cases") + st.get("failure_cases") + st.get("failtamper_cases") + st.get("fulfil_cases");
 	ev.set("evaluations", evaluations);
@@ -922,6 +936,7 @@ fn main() {
 		"rule",
 		"distinct successful outcomes: 128-bit digests of (a) first-hop onion packets that were constructed and then peeled hop by hop down to a final Receive with every per-hop field equal to the route, (b) decoded failure attributions that matched the failing hop, code, data and hold times, (c) decoded fulfil hold-time vectors that matched",
 	);
+	ev.set("violations_found_before_truncation", violations_found as u64);
 	ev.set("exhaustive", !capped);
 	ev.set("capped", capped);
 	ev.set("items_skipped_by_cap", agg.skipped);
